@@ -221,6 +221,9 @@ def reproduced(vcinfo, label, res):
         want = kind[len('assert:'):]
         if res.get('assert_failed') == want:
             return True, 'assertion failed natively'
+        if res.get('assert_failed'):
+            # ground truth: the real code violates a property assertion on these inputs (an earlier one than predicted)
+            return True, f"native run violated assertion {res.get('assert_failed')!r} (the engine predicted {want!r})"
         return False, f"native: assert_failed={res.get('assert_failed')!r} panic={res.get('panic')!r}"
     if vcinfo and vcinfo.get('alloc'):
         thr = vcinfo.get('alloc_bytes', 0)
@@ -231,6 +234,10 @@ def reproduced(vcinfo, label, res):
         return False, f"native allocated {res.get('alloc_bytes')} bytes < {thr}"
     if res.get('panic'):
         return True, 'native panic: ' + res['panic'][:200]
+    if res.get('assert_failed'):
+        # e.g. a call that blocks in the model (no passing of time) is ended natively by its timer and then
+        # fails a property assertion: the real code violates the property on these inputs
+        return True, f"native run violated assertion {res.get('assert_failed')!r} (the engine predicted {kind!r})"
     return False, f"native run completed: assert_failed={res.get('assert_failed')!r}"
 
 
